@@ -83,9 +83,21 @@ func wrapContent(r *mrand.Rand) []byte {
 var chunkings = []int{0, 1, 2, 3, 5, 7, 11, 13, 56, 57, 58, 75, 76, 77, 100, 1000}
 
 func genC18Spec(r *mrand.Rand, id string) gen.MsgSpec {
-	np := gen.Pick(r, []int{1, 1, 2, 3})
+	np := gen.Pick(r, []int{1, 1, 2, 3, 0})
 	ne := gen.Pick(r, []int{0, 0, 1, 2})
 	na := gen.Pick(r, []int{0, 1, 1, 2})
+	if np == 0 && r.Intn(2) == 0 {
+		// a message that consists of one file: the file's headers are part of the message header
+		ne, na = 0, 0
+		if r.Intn(2) == 0 {
+			ne = 1
+		} else {
+			na = 1
+		}
+	}
+	if np+ne+na == 0 {
+		na = 1
+	}
 	s := genSpec(r, id, gen.Pick(r, []string{"quoted-printable", "base64"}), np, ne, na)
 	s.Subject = headerText(r)
 	s.Extra = append(s.Extra, [2]string{"X-Verif-Text", headerText(r)})
@@ -147,7 +159,7 @@ func genC18Spec(r *mrand.Rand, id string) gen.MsgSpec {
 			}
 			f.Source = "writer"
 			f.Chunk = gen.Pick(r, chunkings)
-			if r.Intn(6) == 0 {
+			if r.Intn(6) == 0 || np == 0 && r.Intn(2) == 0 {
 				f.Desc = strings.TrimSpace(headerText(r))
 			}
 		}
@@ -281,6 +293,53 @@ func checkLineDiscipline(s *gen.MsgSpec, out []byte, viol func(key, what string,
 	}
 	chkAddr("From", []gen.AddrSpec{s.From})
 	chkAddr("To", s.To)
+	// descriptions of body parts and files: leaves come in the order parts, embeds, attachments
+	if s.SMIME == "" {
+		var leaves []*mimeread.Entity
+		root.Walk(func(e *mimeread.Entity) {
+			if !e.IsMultipart() {
+				leaves = append(leaves, e)
+			}
+		})
+		type want struct{ kind, desc string }
+		var ws []want
+		for _, p := range s.Parts {
+			ws = append(ws, want{"part", p.Desc})
+		}
+		for _, f := range s.Embeds {
+			ws = append(ws, want{"file", f.Desc})
+		}
+		for _, f := range s.Attach {
+			ws = append(ws, want{"file", f.Desc})
+		}
+		if len(leaves) == len(ws) { // (a wrong leaf count is reported by the content oracle)
+			for i, w := range ws {
+				if w.desc == "" {
+					continue
+				}
+				got := leaves[i].Get("Content-Description")
+				if len(got) == 0 {
+					// (a message that consists of one body part carries no Content-Description at all: nothing was generated
+					// that could be judged here - counted)
+					count("descriptions_not_emitted", 1)
+					continue
+				}
+				if len(got) != 1 {
+					viol("header-count:"+w.kind+":Content-Description", fmt.Sprintf("leaf %d: %d Content-Description fields, one was set", i, len(got)), ev.Q(out, 1200))
+					continue
+				}
+				dec, _ := mimeread.DecodeWords(got[0])
+				count("descriptions_unfolded", 1)
+				if strings.Trim(dec, " \t") != strings.Trim(w.desc, " \t") {
+					cls := "exact"
+					if mimeread.CollapseWS(dec) == mimeread.CollapseWS(w.desc) {
+						cls = "blank-runs"
+					}
+					viol("unfold-mismatch:"+w.kind+":Content-Description:"+cls, fmt.Sprintf("leaf %d: Content-Description unfolds/decodes to %q, value set was %q", i, dec, w.desc), got[0])
+				}
+			}
+		}
+	}
 }
 
 func runC18Case(r *ev.Run, c c18Case) {
@@ -325,7 +384,7 @@ func runC18Case(r *ev.Run, c c18Case) {
 
 func runC18(r *ev.Run, rep *ev.ReplayDoc) ev.Summary {
 	sum := ev.Summary{
-		Rule: "(generic headers also pre-folded by the caller and set through SetGenHeaderPreformatted) seeded messages: header values from words of length 0-300 with single/multiple/leading/trailing blanks, non-ASCII words (Q and B encoders), long display names and domains, threading headers (References / In-Reply-To with several message ids, caller-defined Message-ID); QP/base64 parts and files with contents around the 57/76-byte wrapping points, emitted by producers in chunks of {all,1,2,3,5,7,11,13,56,57,58,75,76,77,100,1000} bytes; a share is S/MIME signed. Oracle scans every physical line of every header section and every encoded body of the raw output. non-trivial = every case (all have long/folded headers or wrapped bodies); distinct by (shape, subject length)",
+		Rule: "(generic headers also pre-folded by the caller and set through SetGenHeaderPreformatted) seeded messages: header values from words of length 0-300 with single/multiple/leading/trailing blanks, non-ASCII words (Q and B encoders), long display names and domains, threading headers (References / In-Reply-To with several message ids, caller-defined Message-ID); part and file descriptions (unfolded and compared like every other value; also on messages that consist of one file, whose headers are part of the message header); QP/base64 parts and files with contents around the 57/76-byte wrapping points, emitted by producers in chunks of {all,1,2,3,5,7,11,13,56,57,58,75,76,77,100,1000} bytes; a share is S/MIME signed. Oracle scans every physical line of every header section and every encoded body of the raw output. non-trivial = every case (all have long/folded headers or wrapped bodies); distinct by (shape, subject length)",
 		Assumptions: []string{
 			"a header line longer than 78 characters is allowed only if (after its leading fold blank) it contains no blank, as the property states",
 			"unfolded values are compared after RFC 2047 decoding and trimming of leading/trailing blanks; blank runs inside the value must survive exactly",
